@@ -25,7 +25,7 @@ LAT = geomdecide.lattice_points(-9.0, 9.0, 19)
 GEOMS = ['-1', '-1 3', '(-1 : -6) 3']
 OV_KEYS = ['mat', 'rho', 'u', 'fill', 'trcl', '*trcl', 'imp']
 OV_VALUES = {
-    'mat': ['2', '3'], 'rho': ['-3.5', '-0.8'], 'u': ['7', '8'], 'fill': ['6', '5', '6 (0 -1 0)', '6 (9)'],
+    'mat': ['2', '3', '0'], 'rho': ['-3.5', '-0.8'], 'u': ['7', '8'], 'fill': ['6', '5', '6 (0 -1 0)', '6 (9)'],
     # (an identity TRCL in the BUT list replaces an inherited TRCL like any other value)
     'trcl': ['(5 0 0)', '(0 5 1 0 1 0 -1 0 0 0 0 1)', '(0 0 0)', '(0 0 0 1 0 0 0 1 0 0 0 1)', '10'],
     '*trcl': ['(0 -5 0)', '(4 4 0 90 0 90 180 90 90 90 90 0)', '(0 0 0 0 90 90 90 0 90 90 90 0)'],
@@ -112,9 +112,13 @@ def choose_overrides(ch, label, base, force=None):
     keys = [k for k, _ in ov]
     if 'trcl' in keys and '*trcl' in keys:
         ch.reject()
-    if 'mat' in keys and base.mat == '0' and 'rho' not in keys:
+    if 'mat' in keys and dict(ov)['mat'] != '0' and base.mat == '0' and 'rho' not in keys:
         ch.reject()
+    if 'mat' in keys and dict(ov)['mat'] == '0' and 'rho' in keys:
+        ch.reject('a void cell takes no density')
     if 'rho' in keys and base.mat == '0' and 'mat' not in keys:
+        ch.reject()
+    if 'rho' in keys and base.mat == '0' and dict(ov).get('mat') == '0':
         ch.reject()
     order = ch.choose('%s.order' % label, ['given', 'reversed'])
     if order == 'reversed':
